@@ -21,7 +21,7 @@ pub(crate) fn choose_fresh_global_variables(program: &asp::Program) -> Vec<Strin
     }
     let mut max_taken_var = 0;
     let taken_vars = program.variables();
-    for var in taken_vars {
+    for var in taken_vars.iter() {
         if let Some(caps) = RE.captures(&var.0) {
             let taken: usize = (caps["number"]).parse().unwrap_or(0);
             if taken > max_taken_var {
@@ -30,11 +30,15 @@ pub(crate) fn choose_fresh_global_variables(program: &asp::Program) -> Vec<Strin
         }
     }
     let mut globals = Vec::<String>::new();
-    for i in 1..max_arity + 1 {
-        let mut v: String = "V".to_owned();
-        let counter: &str = &(max_taken_var + i).to_string();
-        v.push_str(counter);
-        globals.push(v);
+    // Count in u128: numbering past usize::MAX must not overflow
+    let mut counter = max_taken_var as u128;
+    for _ in 0..max_arity {
+        counter += 1;
+        // Numbers too large for usize are not reflected in max_taken_var
+        while taken_vars.contains(&asp::Variable(format!("V{counter}"))) {
+            counter += 1;
+        }
+        globals.push(format!("V{counter}"));
     }
     globals
 }
